@@ -20,6 +20,7 @@ Section EquivRetain.
   Variable cfg : tcfg.
   Variable ncap : Z -> option Z.
   Hypothesis Hesz : 0 < esz cfg.
+  Variable kind : same_kind.       (* how the two-argument closure of dedup_by behaves (Machine.same_call) *)
 
   (* ---- the world with a predicate script ---- *)
   Definition WS := (state * list answer)%type.
@@ -31,6 +32,15 @@ Section EquivRetain.
       match args with
       | [_; VPtr p] =>
           match pred_call cfg p sc s with
+          | (Val r, s') => k (VBool (fst r)) (s', snd r)
+          | (Panicking, s') => (Panic, (s', sc))
+          | (UB u, s') => (Fail (FUB u), (s', sc))
+          | (AllocAbort x y, s') => (Fail (FAllocAbort x y), (s', sc))
+          | (Abort, s') => (Fail FAbort, (s', sc))
+          | (OutOfFuel, s') => (Fail FNoFuel, (s', sc))
+          end
+      | [_; VPtr p; VPtr q] =>
+          match pair_call cfg kind p q sc s with
           | (Val r, s') => k (VBool (fst r)) (s', snd r)
           | (Panicking, s') => (Panic, (s', sc))
           | (UB u, s') => (Fail (FUB u), (s', sc))
@@ -87,7 +97,7 @@ Section EquivRetain.
                   release esz ealign needs_drop is_pow2 layout_ok
                   is_default len capacity alignment vec_handle hdr_block truncate
                   data as_ptr set_len add_len slot_read slot_write slot_swap
-                  get_block put_block set_handle retain_loop
+                  get_block put_block set_handle retain_loop dedup_loop same_call
                   nth_error heap vecs projS].
 
   Ltac next_stmt K EK :=
@@ -211,5 +221,113 @@ Section EquivRetain.
       assert (E0 : (esz cfg =? 0) = false) by (apply Z.eqb_neq; lia). rewrite E0.
       change (0 * esz cfg / esz cfg) with (0 * esz cfg / esz cfg). rewrite Z.mul_0_l, Z.div_0_l by lia. red1.
       destruct (truncate cfg v 0 s2) as [[u| | | | |] s4]; reflexivity.
+  Qed.
+  (* ================================================================ dedup_by ================= *)
+  Definition WHD : stmt :=
+    SWhile (EBin Lt (EVar "read") (EVar "last"))
+      (Blk [SLet ["matches"] (EBlock (Blk [] (Some (ECall "pred" [EVar "read"; ECall ".sub" [EVar "write"; ELit 1]]))));
+            SExpr (EIf (ENot (EVar "matches"))
+                       (Blk [SExpr (EIf (EBin Ne (EVar "read") (EVar "write"))
+                                        (Blk [] (Some (EBlock (Blk [SExpr (ECall "swap" [EVar "read"; EVar "write"])] None)))) None);
+                             SAssign "write" (EBlock (Blk [] (Some (ECall ".add" [EVar "write"; ELit 1]))))] None) None);
+            SAssign "read" (EBlock (Blk [] (Some (ECall ".add" [EVar "read"; ELit 1]))))] None).
+
+  Definition ENVD (b : nat) (off l r w : Z) (v : nat) : env :=
+    [("last", VPtr (PElt b off l)); ("write", VPtr (PElt b off w)); ("read", VPtr (PElt b off r));
+     ("data", VPtr (PElt b off 0)); ("len", VInt l); ("pred", CLOS); ("self", VObj v)].
+
+  Definition after_loopD (K : env -> WS -> AnsS) (b : nat) (off l : Z) (v : nat) (r : res Z * state) : outcome mfail val * state :=
+    match r with
+    | (Val w', s') => projS (K (ENVD b off l l w' v) (s', []))
+    | (Panicking, s') => (Panic, s')
+    | (UB u, s') => (Fail (FUB u), s')
+    | (AllocAbort x y, s') => (Fail (FAllocAbort x y), s')
+    | (Abort, s') => (Fail FAbort, s')
+    | (OutOfFuel, s') => (Fail FNoFuel, s')
+    end.
+
+  Definition script_blindD (b : nat) (off l : Z) (v : nat) (K : env -> WS -> AnsS) : Prop :=
+    forall w s sc1 sc2, projS (K (ENVD b off l l w v) (s, sc1)) = projS (K (ENVD b off l l w v) (s, sc2)).
+
+  Ltac minus_one :=
+    repeat match goal with
+           | |- context [?x + -1] => change (x + -1) with (x - 1)
+           end.
+
+  Lemma loop_equivD b off l v kr K (HK : script_blindD b off l v K) : forall k r w F sc s,
+    0 <= r <= l -> l - r <= Z.of_nat k -> (k <= F)%nat ->
+    projS (xstmt (S (30 + F)) WHD (ENVD b off l r w v) (s, sc) kr K) =
+    after_loopD K b off l v (dedup_loop cfg k kind (PElt b off 0) l r w sc s).
+  Proof.
+    induction k as [|k IH]; intros r w F sc s Hr Hk HF.
+    - assert (r = l) by lia. subst r.
+      unfold WHD. rewrite exec_while. fold WHD.
+      remember (xstmt (30 + F) WHD) as REC eqn:EREC.
+      cbn [dedup_loop]. cbv [ENVD after_loopD].
+      evr. rewrite Nat.eqb_refl, Z.ltb_irrefl. apply HK.
+    - destruct F as [|F]; [lia|].
+      unfold WHD. rewrite exec_while. fold WHD.
+      remember (xstmt (30 + S F) WHD) as REC eqn:EREC.
+      cbn [dedup_loop]. cbv [ENVD after_loopD] in *.
+      evr. rewrite ?Z.add_0_l, ?Nat.eqb_refl. minus_one.
+      destruct (Z.ltb_spec r l) as [Hlt|Hge]; destruct (Z.leb_spec l r) as [Hle|Hgt]; try lia.
+      2:{ assert (r = l) by lia. subst r. apply HK. }
+      red1.
+      repeat first
+        [ reflexivity
+        | match goal with
+          | |- projS (REC _ _ _ _) = _ =>
+              subst REC; change (30 + S F)%nat with (S (30 + F));
+              rewrite IH by lia; reflexivity
+          end
+        | step ].
+  Qed.
+  Definition shape_okD (v : nat) (s : state) : Prop :=
+    forall l s1 d s2, len v s = (Val l, s1) -> 2 <= l -> as_ptr cfg v s1 = (Val d, s2) ->
+      exists b off, d = PElt b off 0.
+
+  Definition run_dedup (fuel : nat) (v : nat) (sc : list answer) (s : state) : outcome mfail val * state :=
+    projS (@eval_fn mfail WS cfg NOF primS fuel lib__MiniVec__dedup_by_ast [VObj v; CLOS] (s, sc)).
+
+  Theorem dedup_by_equiv v sc s F :
+    shape_okD v s ->
+    (forall l s1, len v s = (Val l, s1) -> (Z.to_nat l <= F)%nat) ->
+    run_dedup (FUEL + F) v sc s = lift_m (dedup_by cfg v kind sc) vunit s.
+  Proof.
+    intros Hshape HF.
+    unfold run_dedup, eval_fn. cbv [lib__MiniVec__dedup_by_ast fn_body fn_params FUEL combine rev app].
+    change (120 + F)%nat with (S (119 + F)). rewrite exec_block_S.
+    cbv [dedup_by bind ret lift_m vunit].
+    change (119 + F)%nat with (S (118 + F)).
+    next_stmt K1 EK1. evr. red1.
+    destruct (len v s) as [[l| | | | |] s1] eqn:Elen; try reflexivity.
+    pose proof (HF _ _ eq_refl) as HlF.
+    subst K1. change (118 + F)%nat with (S (117 + F)).
+    next_stmt K2 EK2. evr. red1.
+    destruct (Z.ltb_spec l 2) as [Hsmall|Hbig]; red1; [reflexivity|].
+    subst K2. change (117 + F)%nat with (S (116 + F)).
+    next_stmt K3 EK3. evr. red1.
+    destruct (as_ptr cfg v s1) as [[d| | | | |] s2] eqn:Eptr; try reflexivity.
+    destruct (Hshape _ _ _ _ Elen Hbig Eptr) as (b & off & ->).
+    subst K3. change (116 + F)%nat with (S (115 + F)).
+    next_stmt K4 EK4. evr. subst K4. change (115 + F)%nat with (S (114 + F)).
+    next_stmt K5 EK5. evr. subst K5. change (114 + F)%nat with (S (113 + F)).
+    next_stmt K6 EK6. evr. rewrite ?Z.add_0_l. subst K6. change (113 + F)%nat with (S (112 + F)).
+    rewrite exec_stmts_cons.
+    change (SWhile _ _) with WHD.
+    change [("last", VPtr (PElt b off l)); ("write", VPtr (PElt b off 1)); ("read", VPtr (PElt b off 1));
+            ("data", VPtr (PElt b off 0)); ("len", VInt l); ("pred", VCtor "Closure" []); ("self", VObj v)]
+      with (ENVD b off l 1 1 v).
+    change (112 + F)%nat with (S (30 + (81 + F))).
+    rewrite (loop_equivD b off l v _ _) with (k := Z.to_nat l); [| |lia|lia|lia].
+    - destruct (dedup_loop cfg (Z.to_nat l) kind (PElt b off 0) l 1 1 sc s2) as [[w| | | | |] s3]; cbv [after_loopD]; try reflexivity.
+      cbv [ENVD]. rewrite exec_stmts_cons. evr. rewrite ?Nat.eqb_refl, ?Z.sub_0_r.
+      assert (E0 : (esz cfg =? 0) = false) by (apply Z.eqb_neq; lia). rewrite E0.
+      rewrite Z.div_mul by lia. red1.
+      destruct (truncate cfg v w s3) as [[u| | | | |] s4]; reflexivity.
+    - intros w s0 sc1 sc2. cbv [ENVD]. rewrite !exec_stmts_cons. evr.
+      rewrite ?Nat.eqb_refl.
+      destruct (esz cfg =? 0); [reflexivity|]. red1.
+      destruct (truncate cfg v ((w - 0) * esz cfg / esz cfg) s0) as [[u| | | | |] s4]; reflexivity.
   Qed.
 End EquivRetain.
